@@ -22,7 +22,10 @@ pub struct Hist {
     pub n_enc_d: u64,
     /// emit the C13 specification predicates on the real observations
     pub spec13: bool,
-    pub saved: Option<(String, String)>,
+    pub saved: std::collections::BTreeMap<u32, (String, String, (u64, u64), (u64, u64), u64, u64)>,
+    /// sequence oracle bookkeeping per receiver: (highest accepted counter, ciphertexts rejected since)
+    pub win_dev: (u64, u64),
+    pub win_rdr: (u64, u64),
 }
 
 pub fn dev_outcome_class(o: &RequestAuthenticationOutcome) -> &'static str {
@@ -42,10 +45,17 @@ pub fn rdr_outcome_class(o: &ResponseAuthenticationOutcome) -> String {
     } else { "accepted:resp".into() }
 }
 
+/// status-only SessionData frames (unauthenticated; anyone on the link can send them)
+pub fn status_only(k: u8) -> Vec<u8> {
+    use isomdl::definitions::session::Status;
+    let status = match k { 0 => Some(Status::SessionEncryptionError), 1 => Some(Status::CborDecodingError), 2 => Some(Status::SessionTermination), _ => None };
+    isomdl::cbor::to_vec(&isomdl::definitions::SessionData { data: None, status }).unwrap()
+}
+
 impl Hist {
     pub fn start(ctx: &mut Ctx, sim: Sim, tag: &str) -> Hist {
         let mut h = Hist { sim, tag: tag.into(), to_dev: vec![], to_rdr: vec![], extra: vec![], ops: vec![],
-                           last_req_outcome: None, last_resp_outcome: None, n_enc_r: 1, n_enc_d: 0, spec13: false, saved: None };
+                           last_req_outcome: None, last_resp_outcome: None, n_enc_r: 1, n_enc_d: 0, spec13: false, saved: Default::default(), win_dev: (1, 0), win_rdr: (0, 0) };
         let d = h.sim.describe(&h.sim.establishment.clone(), &[]);
         h.to_dev.push((h.sim.establishment.clone(), d));
         let real = h.sim.summary();
@@ -63,6 +73,22 @@ impl Hist {
         let obs = match iv.split_once(':') { Some((k, hexiv)) if k == want_key => format!("{n}:{hexiv}"), _ => format!("{n}:00") };
         ctx.emit.line("spec", &format!("spec:{}", self.tag), format!("spec.iv {} {} {}", reader, n, obs), "true".into(),
             serde_json::json!({"history": self.ops.clone(), "observed_iv": iv, "expected_counter": n}));
+    }
+    /// Spec(real), sequence form of C06 (see Spec/Channel.lean `acceptWindowOk`)
+    fn window_spec(&mut self, ctx: &mut Ctx, to_device: bool, desc: &str, accepted: bool) {
+        let parts: Vec<&str> = desc.split(':').collect();
+        if parts.len() != 6 || parts[0] != "ct" { return; }
+        let dir_ok = (parts[1] == "r") == to_device;
+        let sess_ok = parts[2] == self.sim.id.to_string();
+        let n: u64 = parts[3].parse().unwrap_or(0);
+        let tampered = parts[5] == "t";
+        let (max_acc, rej) = if to_device { self.win_dev } else { self.win_rdr };
+        let t = |b: bool| if b { "t" } else { "f" };
+        ctx.emit.line("spec", &format!("spec:{}:window:{}", self.tag, if to_device { "dev" } else { "rdr" }),
+            format!("spec.c06seq {} {} {} {} {} {} {}", t(accepted), t(dir_ok), t(sess_ok), t(tampered), n, max_acc, rej), "true".into(),
+            serde_json::json!({"history": self.ops.clone(), "delivered": desc}));
+        let w = if to_device { &mut self.win_dev } else { &mut self.win_rdr };
+        if accepted { *w = (n.max(w.0), 0); } else { w.1 += 1; }
     }
     fn spec13_line(&mut self, ctx: &mut Ctx, kind: &str, op: String) {
         if !self.spec13 { return; }
@@ -93,6 +119,7 @@ impl Hist {
     pub fn handle_request(&mut self, ctx: &mut Ctx, msg: &[u8], desc: &str) {
         let o = self.sim.dev.handle_request(msg);
         let real = format!("{} {}", dev_outcome_class(&o), self.sim.summary());
+        self.window_spec(ctx, true, desc, dev_outcome_class(&o).starts_with("accepted"));
         let malformed = dev_outcome_class(&o) == "accepted:malformed";
         self.last_req_outcome = Some(o);
         self.emit(ctx, format!("sess.handleRequest {desc}"), real);
@@ -188,6 +215,10 @@ impl Hist {
     pub fn handle_response(&mut self, ctx: &mut Ctx, msg: &[u8], desc: &str) {
         let o = self.sim.rdr.handle_response(msg);
         let real = format!("{} {}", rdr_outcome_class(&o), self.sim.summary());
+        // accepted = the ciphertext decrypted (even if the plaintext then failed to parse as a DeviceResponse)
+        let cls = rdr_outcome_class(&o);
+        let acc = cls.starts_with("accepted") || (cls == "parsing" && desc.starts_with("ct:"));
+        self.window_spec(ctx, false, desc, acc);
         self.last_resp_outcome = Some(o);
         self.emit(ctx, format!("sess.handleResponse {desc}"), real);
     }
@@ -205,22 +236,27 @@ impl Hist {
         self.sim.set_counters(de, dd, re, rd);
         self.extra.extend([de, dd, re, rd]);
         self.n_enc_r = re as u64; self.n_enc_d = de as u64;
+        self.win_dev = (dd as u64, 0); self.win_rdr = (rd as u64, 0);
         let real = self.sim.summary();
         self.emit(ctx, format!("sess.setCounters {de} {dd} {re} {rd}"), real);
     }
 
-    pub fn save(&mut self, ctx: &mut Ctx) {
+    pub fn save(&mut self, ctx: &mut Ctx) { self.save_slot(ctx, 0) }
+    pub fn load(&mut self, ctx: &mut Ctx) { self.load_slot(ctx, 0) }
+    pub fn save_slot(&mut self, ctx: &mut Ctx, k: u32) {
         use isomdl::presentation::Stringify;
-        self.saved = Some((self.sim.dev.stringify().unwrap(), self.sim.rdr.stringify().unwrap()));
-        self.emit(ctx, "sess.save".into(), "saved".into());
+        self.saved.insert(k, (self.sim.dev.stringify().unwrap(), self.sim.rdr.stringify().unwrap(), self.win_dev, self.win_rdr, self.n_enc_r, self.n_enc_d));
+        self.emit(ctx, format!("sess.save {k}"), "saved".into());
     }
-    pub fn load(&mut self, ctx: &mut Ctx) {
+    pub fn load_slot(&mut self, ctx: &mut Ctx, k: u32) {
         use isomdl::presentation::Stringify;
-        let (d, r) = self.saved.clone().unwrap();
+        let (d, r, wd, wr, ner, ned) = self.saved.get(&k).cloned().unwrap();
+        self.n_enc_r = ner; self.n_enc_d = ned;
         self.sim.dev = isomdl::presentation::device::SessionManager::parse(d).unwrap();
         self.sim.rdr = isomdl::presentation::reader::SessionManager::parse(r).unwrap();
+        self.win_dev = wd; self.win_rdr = wr;
         let real = self.sim.summary();
-        self.emit(ctx, "sess.load".into(), real);
+        self.emit(ctx, format!("sess.load {k}"), real);
     }
     /// deliver to the device and also evaluate the C06 predicate on the real observation
     pub fn deliver_dev_c06(&mut self, ctx: &mut Ctx, msg: &[u8], desc: &str, honest: Option<bool>, what: &str) {
@@ -234,8 +270,10 @@ impl Hist {
             || !matches!(o.reader_authentication, isomdl::presentation::authentication::AuthenticationStatus::Unchecked);
         let cls = dev_outcome_class(&o);
         let t = |b: bool| if b { "t" } else { "f" };
+        if honest.is_none() && desc.starts_with("ct:") && !desc.ends_with(":t") { return; }
         let op = match honest { Some(h) => format!("spec.c06 {} {} {} {}", t(h), cls, t(unchanged), t(has_data)),
                                 None => format!("spec.c06w {} {} {}", cls, t(unchanged), t(has_data)) };
+        let op = if honest.is_none() && desc.ends_with(":t") { format!("spec.c06 f {} {} {}", cls, t(unchanged), t(has_data)) } else { op };
         ctx.emit.line("spec", &format!("spec:{}:dev:{}", self.tag, what), op, "true".into(),
             serde_json::json!({"history": self.ops.clone(), "delivered": desc, "what": what, "msg_hex": hex::encode(msg)}));
     }
@@ -248,8 +286,10 @@ impl Hist {
         let has_data = !o.response.is_empty() || !matches!(o.issuer_authentication, A::Unchecked) || !matches!(o.device_authentication, A::Unchecked);
         let cls = rdr_outcome_class(&o);
         let t = |b: bool| if b { "t" } else { "f" };
+        if honest.is_none() && desc.starts_with("ct:") && !desc.ends_with(":t") { return; }
         let op = match honest { Some(h) => format!("spec.c06 {} {} {} {}", t(h), cls, t(unchanged), t(has_data)),
                                 None => format!("spec.c06w {} {} {}", cls, t(unchanged), t(has_data)) };
+        let op = if honest.is_none() && desc.ends_with(":t") { format!("spec.c06 f {} {} {}", cls, t(unchanged), t(has_data)) } else { op };
         ctx.emit.line("spec", &format!("spec:{}:rdr:{}", self.tag, what), op, "true".into(),
             serde_json::json!({"history": self.ops.clone(), "delivered": desc, "what": what, "msg_hex": hex::encode(msg)}));
     }
@@ -281,7 +321,7 @@ impl Hist {
                     if isomdl::cbor::from_slice::<isomdl::definitions::SessionData>(&g).is_err() { self.handle_request(ctx, &g, "garbage"); }
                     "handleRequest-garbage"
                 } else {
-                    let m = isomdl::cbor::to_vec(&isomdl::definitions::SessionData { data: None, status: Some(isomdl::definitions::session::Status::SessionTermination) }).unwrap();
+                    let m = status_only(ctx.rng.gen_range(0..4));
                     self.handle_request(ctx, &m, "nodata");
                     "handleRequest-nodata"
                 }
@@ -307,7 +347,12 @@ impl Hist {
             56..=72 => { let dummy = ctx.rng.gen_bool(0.2); self.submit(ctx, dummy); "submit" }
             73..=76 => { self.response_ready(ctx); "responseReady" }
             77..=86 => { self.retrieve(ctx); "retrieve" }
-            87..=93 => {
+            87..=88 => {
+                let m = status_only(ctx.rng.gen_range(0..4));
+                self.handle_response(ctx, &m, "nodata");
+                "handleResponse-nodata"
+            }
+            89..=93 => {
                 if !self.to_rdr.is_empty() {
                     let i = if ctx.rng.gen_bool(0.75) { self.to_rdr.len() - 1 } else { ctx.rng.gen_range(0..self.to_rdr.len()) };
                     let (m, d) = self.to_rdr[i].clone();
